@@ -22,6 +22,8 @@ from fractions import Fraction
 from pathlib import Path
 
 ID = "C09"
+# computational entry points whose results are watched by the engine's retained-result oracle (mc/explore.py)
+RETAIN = [('hydrodiy.io.csv', 'read_csv')]
 RULE = ("every storage mode {plain x.csv; compress=True under x.csv / x.zip / x; member "
         "sub/x.csv of a caller's zip archive} x column layout {f; i; t; t,f; i,t; f,i,t; t,i,f} "
         "x text value x comment value crossed fully, and around every such core point every "
